@@ -270,7 +270,7 @@ def _large_strategy(draw):
     levels = [draw(st.sampled_from([2, 3, 4, 12, 40])) for _ in range(k)]
     while np.prod([v + 1 for v in levels]) > 2500:
         levels[levels.index(max(levels))] = 4
-    return {"n": draw(st.sampled_from([1000, 2500, 5000, 12000])), "seed": draw(st.integers(0, 2**31 - 1)),
+    return {"n": draw(st.sampled_from([1000, 2500, 5000, 12000, 1024, 4096, 8191])), "seed": draw(st.integers(0, 2**31 - 1)),
             "levels": levels, "rare": draw(st.sampled_from([1, 2, 7])),
             "wscale": draw(st.sampled_from([1.0, 0.25, 1e-6])), "frame": draw(st.booleans()),
             "str_labels": draw(st.booleans()), "n_cf": draw(st.sampled_from([0, 0, 1, 2]))}
